@@ -1061,7 +1061,8 @@ class VerilogVariable(ast.AST):
         self._fields = tuple(['name', 'type'])
 
     def toVerilog(self):
-        return self.name
+        from py4hw.rtl_generation import getValidVerilogName
+        return getValidVerilogName(self.name)
     
 class VerilogWireDeclaration(ast.AST):
     '''
@@ -1085,7 +1086,8 @@ class VerilogVariableDeclaration(ast.AST):
         self._fields = tuple(['name', 'type'])
 
     def toVerilog(self):
-        return '{} {};\n'.format(self.type, self.name )
+        from py4hw.rtl_generation import getValidVerilogName
+        return '{} {};\n'.format(self.type, getValidVerilogName(self.name))
 
 
 class VerilogDeclarations(ast.AST):
